@@ -1156,6 +1156,10 @@ func (s *verifC20Scn) genCA() (string, lnwire.Message) {
 	slot := s.freshSlot(verifC20KindGood)
 	if !s.mainAnnounced && r.Chance(1, 6) {
 		slot = s.main
+	} else if len(s.announced) > 0 && r.Chance(1, 8) {
+		// a (possibly different, possibly corrupted) announcement for a
+		// channel that was already announced.
+		slot = s.announced[r.Intn(len(s.announced))]
 	}
 	keys := s.keys
 	a := verifC20BuildCA(slot.scid(), keys)
@@ -1773,6 +1777,10 @@ func (s *verifC20Scn) judge(label, kind string, before, after *verifC20Snap,
 		ok := true
 		switch kk {
 		case "chan":
+			if al.why == "valid-duplicate" {
+				vc.Diag("known_channel_replaced_by_valid_duplicate", k+" -> "+after.kv[k])
+				continue
+			}
 			if ca != nil {
 				ch := after.chans[ca.ShortChannelID.ToUint64()]
 				ok = ch != nil && ch.N1 == ca.NodeID1 && ch.N2 == ca.NodeID2 &&
@@ -1816,7 +1824,7 @@ func (s *verifC20Scn) judge(label, kind string, before, after *verifC20Snap,
 				found = true
 			}
 		}
-		if !found && al.why != "shell-node-of-new-channel" {
+		if !found && al.why != "shell-node-of-new-channel" && al.why != "valid-duplicate" {
 			vc.Count("valid_not_applied", 1)
 			extra := ""
 			if ca != nil && strings.HasPrefix(k, "chan/") {
@@ -1902,7 +1910,12 @@ func (s *verifC20Scn) submit(idx int, label string, m lnwire.Message) {
 		scid = mm.ShortChannelID.ToUint64()
 		ref = c.refCA(mm)
 		if _, exists := before.chans[scid]; ref.Valid && exists {
+			// All "only if" conditions of the statement hold, but the
+			// channel is already known: replacing the stored channel by
+			// another fully valid announcement is not forbidden by the
+			// statement, so a change here is only a diagnostic.
 			ref = verifC20Verdict{Reason: "valid-but-known"}
+			allowed[fmt.Sprintf("chan/%d", scid)] = &verifC20Allowed{why: "valid-duplicate"}
 		}
 		s.allowCA(mm, before, allowed, nil)
 	case *lnwire.ChannelUpdate1:
